@@ -35,6 +35,8 @@ var negControls = []struct {
 	{"MC_Walk", "MC_Walk_parents_noseen.cfg", "inv:WorkBounded|temporal"},
 	{"MC_Walk", "MC_Walk_objwalk_noseen.cfg", "inv:WorkBounded|inv:NoOverflow"},
 	{"MC_Walk", "MC_Walk_objwalk_ascoded.cfg", "inv:NoOverflow"},
+	{"MC_Walk", "MC_Walk_navnode_noseen.cfg", "inv:WorkBounded|temporal"},
+	{"MC_Walk", "MC_Walk_navnode_noacc.cfg", "inv:WorkBounded|temporal"},
 }
 
 func selfTest(ctx *core.Ctx) error {
@@ -209,6 +211,7 @@ func init() {
 		"fields":   "FieldsBegin FieldsStep FieldsDone",
 		"parents":  "ParentsBegin ParentsStep",
 		"objwalk":  "ObjBegin ObjStep ObjDone",
+		"navnode":  "NavBegin NavStep",
 	} {
 		for _, a := range strings.Fields(as) {
 			actionOf[a] = w
